@@ -1066,7 +1066,17 @@ func runHistory(r *vkit.R, id int, g *vkit.Rand, longWait bool, hungProbe bool) 
 	}
 
 	// (b) every request that was being proxied to the removed target ends on both sides within promptD
+	// elsewhere: the request was received by a stub that is NOT among the removed targets (the gateway routed it to another
+	// endpoint than the per-endpoint policy names - that is C03's business). The removal clause says nothing about a request
+	// that is being proxied to an endpoint which was not removed.
+	elsewhere := func(st *stream) bool {
+		up, ok := h.slog.get(st.ID)
+		return ok && !isTarget(up.stub)
+	}
 	open := func(st *stream) (clientOpen, upstreamOpen bool) {
+		if elsewhere(st) {
+			return false, false
+		}
 		_, _, _, ended, _ := st.snap()
 		clientOpen = ended == 0
 		if up, ok := h.slog.get(st.ID); ok && up.disc == 0 {
@@ -1125,6 +1135,10 @@ func runHistory(r *vkit.R, id int, g *vkit.Rand, longWait bool, hungProbe bool) 
 	for _, st := range targets {
 		status, chunks, _, ended, endErr := st.snap()
 		up, seenUp := h.slog.get(st.ID)
+		if elsewhere(st) {
+			r.Count("target_requests_received_by_an_endpoint_that_was_not_removed_not_judged", 1)
+			continue
+		}
 		cOpen, uOpen := open(st)
 		r.Count("target_streams", 1)
 		r.Count("target_streams_"+st.Phase, 1)
